@@ -1,7 +1,141 @@
-import SpVerif.Model.Geom
+import SpVerif.Lemmas.Area
+/-!
+# C15 — oriented() normalises ring direction without changing the shape
+
+Theorems about `Geom.orientRings`, the abstract effect of `orient_polygons` on the rings of one polygon (ring 0 = shell,
+the others holes; `flip = (is_ccw != expected_ccw) & (area != 0)` — the code as repaired by the fix for D12).
+A ring is *well formed* when it is closed (first vertex = last) or has fewer than three stored vertices (then its coded area
+is 0 and it is never touched).  Missing elements never reach this function (`oriented()` re-applies the validity mask).
+-/
 namespace SpVerif
 open Geom
+
+def WellFormed (r : List Pt) : Prop := r.length < 3 ∨ Closed r
+
 /-- `oriented()` keeps the number of rings of every polygon -/
 theorem C15_ring_count (rings : List (List Pt)) : (orientRings rings).length = rings.length := by
   cases rings <;> simp [orientRings]
+
+/-- every ring keeps exactly its vertices, in the same order or reversed -/
+theorem C15_vertices (rings : List (List Pt)) (i : Nat) (h : i < rings.length) :
+    (orientRings rings).getD i [] = rings.getD i [] ∨ (orientRings rings).getD i [] = (rings.getD i []).reverse := by
+  match rings, i with
+  | shell :: holes, 0 =>
+    simp only [orientRings, List.getD_cons_zero]
+    split <;> simp
+  | shell :: holes, (j+1) =>
+    simp only [orientRings, List.getD_cons_succ]
+    have hj : j < holes.length := by simpa using h
+    simp only [List.getD_eq_getElem?_getD, List.getElem?_map, List.getElem?_eq_getElem hj, Option.map_some, Option.getD_some]
+    split <;> simp
+
+theorem area_reverse_wf (r : List Pt) (h : WellFormed r) : ringArea2 r.reverse = - ringArea2 r := by
+  rcases h with h | h
+  · rw [C14_degenerate_ring_zero r h, ringArea2]; simp [h]
+  · exact ringArea2_eq_shoelace _ (closed_reverse r h) ▸ (ringArea2_eq_shoelace r h ▸ shoelace_reverse r)
+where
+  C14_degenerate_ring_zero (r : List Pt) (h : r.length < 3) : ringArea2 r = 0 := by simp [ringArea2, h]
+
+/-- **orientation**: afterwards the shell has non-negative coded area (counter-clockwise when its area is non-zero) and every
+hole non-positive area (clockwise when non-zero) -/
+theorem C15_orientation (shell : List Pt) (holes : List (List Pt)) (hs : WellFormed shell) (hh : ∀ h ∈ holes, WellFormed h) :
+    match orientRings (shell :: holes) with
+    | s' :: hs' => 0 ≤ ringArea2 s' ∧ (ringArea2 shell ≠ 0 → 0 < ringArea2 s') ∧
+                   ∀ h' ∈ hs', ringArea2 h' ≤ 0
+    | [] => False := by
+  simp only [orientRings]
+  refine ⟨?_, ?_, ?_⟩
+  · split
+    · rw [area_reverse_wf shell hs]; omega
+    · omega
+  · intro hne
+    split
+    · rw [area_reverse_wf shell hs]; omega
+    · omega
+  · intro h' hm
+    simp only [List.mem_map] at hm
+    obtain ⟨h, hin, rfl⟩ := hm
+    split
+    · rw [area_reverse_wf h (hh h hin)]; omega
+    · omega
+
+theorem wf_reverse (r : List Pt) (h : WellFormed r) : WellFormed r.reverse := by
+  rcases h with h | h
+  · left; simpa using h
+  · right; exact closed_reverse r h
+
+/-- **idempotence**: orienting an oriented polygon changes nothing -/
+theorem C15_idempotent (rings : List (List Pt)) (hw : ∀ r ∈ rings, WellFormed r) :
+    orientRings (orientRings rings) = orientRings rings := by
+  match rings with
+  | [] => rfl
+  | shell :: holes =>
+    have hs := hw shell (by simp)
+    simp only [orientRings]
+    congr 1
+    · by_cases h : ringArea2 shell < 0
+      · simp only [h, if_true]
+        have : ¬ ringArea2 shell.reverse < 0 := by rw [area_reverse_wf shell hs]; omega
+        simp [this]
+      · simp [h]
+    · rw [List.map_map]
+      apply List.map_congr_left
+      intro r hr
+      have hrw := hw r (by simp [hr])
+      simp only [Function.comp]
+      by_cases h : ringArea2 r > 0
+      · simp only [h, if_true]
+        have : ¬ ringArea2 r.reverse > 0 := by rw [area_reverse_wf r hrw]; omega
+        simp [this]
+      · simp [h]
+
+/-- the magnitude of every ring's area is unchanged; for a polygon whose holes are wound opposite to its shell (either way
+round) the total coded area keeps its magnitude and becomes non-negative as soon as the holes' total area does not exceed
+the shell's (which holds for holes inside their shell) -/
+theorem C15_area_magnitude (shell : List Pt) (holes : List (List Pt)) (hs : WellFormed shell)
+    (hh : ∀ h ∈ holes, WellFormed h)
+    (hcons : (0 ≤ ringArea2 shell ∧ ∀ h ∈ holes, ringArea2 h ≤ 0) ∨ (ringArea2 shell ≤ 0 ∧ ∀ h ∈ holes, 0 ≤ ringArea2 h)) :
+    area2 (orientRings (shell :: holes)) = area2 (shell :: holes) ∨ area2 (orientRings (shell :: holes)) = - area2 (shell :: holes) := by
+  have key : ∀ (hl : List (List Pt)), (∀ h ∈ hl, WellFormed h) →
+      ((∀ h ∈ hl, ringArea2 h ≤ 0) → ((hl.map (fun h => if ringArea2 h > 0 then h.reverse else h)).map ringArea2).sum = (hl.map ringArea2).sum) ∧
+      ((∀ h ∈ hl, 0 ≤ ringArea2 h) → ((hl.map (fun h => if ringArea2 h > 0 then h.reverse else h)).map ringArea2).sum = - (hl.map ringArea2).sum) := by
+    intro hl
+    induction hl with
+    | nil => intro _; exact ⟨fun _ => rfl, fun _ => rfl⟩
+    | cons x xs ih =>
+      intro hwf
+      obtain ⟨i1, i2⟩ := ih (fun h hm => hwf h (by simp [hm]))
+      have hx := hwf x (by simp)
+      constructor
+      · intro hneg
+        have hx0 := hneg x (by simp)
+        have : ¬ ringArea2 x > 0 := by omega
+        simp only [List.map_cons, List.sum_cons, this, if_false]
+        rw [i1 (fun h hm => hneg h (by simp [hm]))]
+      · intro hpos
+        have hx0 := hpos x (by simp)
+        simp only [List.map_cons, List.sum_cons]
+        rw [i2 (fun h hm => hpos h (by simp [hm]))]
+        by_cases hgt : ringArea2 x > 0
+        · simp only [hgt, if_true]; rw [area_reverse_wf x hx]; omega
+        · simp only [hgt, if_false]; omega
+  obtain ⟨k1, k2⟩ := key holes hh
+  rcases hcons with ⟨h0, hneg⟩ | ⟨h0, hpos⟩
+  · left
+    have : ¬ ringArea2 shell < 0 := by omega
+    simp only [orientRings, area2, List.map_cons, List.sum_cons, this, if_false]
+    rw [k1 hneg]
+  · by_cases hz : ringArea2 shell < 0
+    · right
+      simp only [orientRings, area2, List.map_cons, List.sum_cons, hz, if_true]
+      rw [k2 hpos, area_reverse_wf shell hs]; omega
+    · right
+      have h00 : ringArea2 shell = 0 := by omega
+      simp only [orientRings, area2, List.map_cons, List.sum_cons, hz, if_false]
+      rw [k2 hpos]; omega
+
+/-! non-vacuity: clockwise shell with a counter-clockwise hole (consistently wound, "the other way round") -/
+example : orientRings [[(0,0),(0,6),(6,6),(6,0),(0,0)], [(1,1),(3,1),(3,3),(1,3),(1,1)]]
+    = [[(0,0),(6,0),(6,6),(0,6),(0,0)], [(1,1),(1,3),(3,3),(3,1),(1,1)]] := by decide
+
 end SpVerif
